@@ -599,6 +599,18 @@ def na_judge(case):
                     df = na_clone(d, cont)
                     df.concurrent_tail = tail
                     fresh = na_run(df, setup, prepare=place)
+                    if setup[2]:
+                        # nothing left behind in the state objects / the machine's scope: the introspection of the
+                        # survivor answers like the fresh machine's
+                        def names(r):
+                            try:
+                                return (sorted(r.machine.get_nested_state_names()),
+                                        sorted(st.name for st in r.machine.states.values()), list(r.machine.prefix_path))
+                            except Exception as e:      # noqa
+                                return 'raises ' + repr(e)[:120]
+                        if names(surv) != names(fresh):
+                            fs.append(('state-names-or-scope-left-behind', dict(info, survivor=str(names(surv))[:300],
+                                                                                 fresh=str(names(fresh))[:300])))
                     a, b = surv_items[n0:], fresh.items
                     if a != b or surv.final() != fresh.final():
                         kk = next((i for i, (x, y) in enumerate(zip(a, b)) if x != y), min(len(a), len(b)))
